@@ -153,7 +153,7 @@ def c01(tier, seed, t0):
     budget = 170 if tier == "quick" else 2700
     res = R.run_pool(H.HNAME, H.chunks(tier, n), budget, seed, tier,
                      extra=dict(sample_rate=0.1 if tier == "quick" else 0.03, max_ops=2 if tier == "quick" else 3,
-                                chunk_time=80 if tier == "quick" else 240), shuffle=False)
+                                chunk_time=150 if tier == "quick" else 400, max_paths=160 if tier == "quick" else 600), shuffle=False)
     agg = R.merge(res)
     bounds = dict(program_instances=n, generator="harness/families.py (grammar of DESIGN.md 4.1), shapes from a seeded RNG",
                   symbolic_per_instance="all identifier / macro / include-path / numeric / char slots, <=2 string slots, "
@@ -173,8 +173,8 @@ def relations(prop, tier, seed, t0, what, bounds_extra):
     n = int(os.environ.get("VERIF_N", 0)) or ({"C18": 40, "C17": 40, "C19": 24}[prop] if tier == "quick" else {"C18": 400, "C17": 400, "C19": 240}[prop])
     budget = 150 if tier == "quick" else 2400
     res = R.run_pool(H.HNAME, H.chunks(prop, tier, n), budget, seed, tier,
-                     extra=dict(sample_rate=0.1 if tier == "quick" else 0.03, chunk_time=60 if tier == "quick" else 200,
-                                max_slots=3 if tier == "quick" else 4))
+                     extra=dict(sample_rate=0.1 if tier == "quick" else 0.03, chunk_time=120 if tier == "quick" else 300,
+                                max_slots=3 if tier == "quick" else 4, max_paths={"C18": 120, "C17": 150, "C19": 40}[prop] * (1 if tier == "quick" else 4)))
     agg = R.merge(res)
     bounds = dict(program_instances=n, generator="harness/families.py", **bounds_extra)
     return R.report(prop, H.HNAME, tier, seed, agg, t0, bounds, functions=PIPE_FUNCS, assumptions=[what])
